@@ -24,7 +24,9 @@ func (p *prop) Rule() string {
 		"another operand's run boundaries, cardinalities 4095/4096/4097 (array/bitmap threshold), 2047/2048/2049 runs, full and empty containers, " +
 		"each in every encoding (array, bitmap, run with optionally split adjacent runs) and every encoding pairing; ranges [s,e) on and next to run " +
 		"boundaries; bitmaps over keys 0,1,2,65535,65536,2^48-2,2^48-1 built fresh (slice and B-tree), from explicit containers (incl. empty and nil ones), " +
-		"Optimize()d and decoded (UnmarshalBinary); histories mix every read with every set operation on the results. A kernel case is non-trivial when " +
+		"Optimize()d and decoded (UnmarshalBinary); histories mix every read with every set operation on the results; plus the wide B-tree family: " +
+		"3 cases per stream with 509..1300 containers (more than one B-tree leaf page) built by ascending/descending/random inserts, block and scattered " +
+		"removals and re-adds, then CountRange/Seek+Next/SliceRange/OffsetRange/Contains aimed at every container key in turn. A kernel case is non-trivial when " +
 		"both operands are non-empty; a bitmap case when some register is non-empty and it has >= 3 reads/operations"
 }
 
@@ -657,8 +659,159 @@ func genBitmapCase(r *vh.Rng, tier string) vh.Case {
 	return vh.Case{Lines: lines, Nontrivial: nonempty && nops >= 3}
 }
 
+// ---------- wide B-tree family ----------
+//
+// One leaf page of roaring/btree.go holds 2*kd = 508 containers, so a collection with more than
+// 508 containers has an index page and every read that seeks a key (CountRange, Iterator.Seek,
+// SliceRange, OffsetRange) descends through it; a key equal to an index separator (the first key of
+// a right-hand leaf) takes a different branch of (*tree).Seek. The family builds 509..1300
+// containers by ascending / descending / random-order inserts, optionally empties blocks of
+// consecutive containers (leaf underflow, concat, catenation of the root) and re-adds some, and then
+// aims seeking reads at EVERY container key in turn, and at keys before the first / after the last.
+
+func singles(vs []uint64) string {
+	ss := make([]string, len(vs))
+	for i, v := range vs {
+		ss[i] = strconv.FormatUint(v, 10)
+	}
+	if len(ss) == 0 {
+		return "-"
+	}
+	return strings.Join(ss, ",")
+}
+
+var wideLows = []uint64{3, 700, 65535}
+
+func genWideCase(r *vh.Rng, variant int) vh.Case {
+	kind := "t"
+	if variant%4 == 3 {
+		kind = "s" // the slice collection, for comparison
+	}
+	vh.Count("wide-" + kind)
+	n := r.Range(640, 1300)
+	base := uint64(r.Pick(0, 1, 7, 65000, 1<<32))
+	stride := uint64(1)
+	if r.Chance(1, 4) {
+		stride = uint64(r.Range(2, 3))
+	}
+	keys := make([]uint64, n)
+	for i := range keys {
+		keys[i] = base + uint64(i)*stride
+	}
+	// two or three values per container so that "count to the end of the container" is visible
+	var vals []uint64
+	for _, k := range keys {
+		vals = append(vals, k<<16|3, k<<16|700)
+		if r.Chance(1, 3) {
+			vals = append(vals, k<<16|65535)
+		}
+	}
+	order := r.Intn(3)
+	switch order {
+	case 1: // descending
+		for i, j := 0, len(vals)-1; i < j; i, j = i+1, j-1 {
+			vals[i], vals[j] = vals[j], vals[i]
+		}
+		vh.Count("wide-insert-desc")
+	case 2: // random
+		pm := r.Perm(len(vals))
+		sh := make([]uint64, len(vals))
+		for i, j := range pm {
+			sh[i] = vals[j]
+		}
+		vals = sh
+		vh.Count("wide-insert-random")
+	default:
+		vh.Count("wide-insert-asc")
+	}
+	lines := []string{fmt.Sprintf("new w %s -", kind), "addv w " + singles(vals)}
+	present := map[uint64]bool{}
+	for _, k := range keys {
+		present[k] = true
+	}
+	if variant%2 == 1 {
+		// empty blocks of consecutive containers and scattered single containers, keep >= 509
+		var rm []uint64
+		drop := func(k uint64) {
+			if present[k] && len(present) > 509 {
+				delete(present, k)
+				rm = append(rm, k<<16|3, k<<16|700, k<<16|65535)
+			}
+		}
+		for b := 0; b < r.Range(1, 3); b++ {
+			at := r.Intn(n)
+			ln := r.Range(40, 320)
+			for i := at; i < at+ln && i < n; i++ {
+				drop(keys[i])
+			}
+		}
+		for i := 0; i < n; i++ {
+			if r.Chance(1, 9) {
+				drop(keys[i])
+			}
+		}
+		if r.Bool() { // removals in descending order too
+			for i, j := 0, len(rm)-1; i < j; i, j = i+1, j-1 {
+				rm[i], rm[j] = rm[j], rm[i]
+			}
+		}
+		lines = append(lines, "rm w "+singles(rm))
+		vh.Count("wide-removals")
+		// re-add a few of the removed containers with one value
+		var back []uint64
+		for _, k := range keys {
+			if !present[k] && r.Chance(1, 6) {
+				present[k] = true
+				back = append(back, k<<16|700)
+			}
+		}
+		if len(back) > 0 {
+			lines = append(lines, "addv w "+singles(back))
+		}
+	}
+	lines = append(lines, "count w", "min w", "max w", "slice w")
+	first, last := keys[0], keys[n-1]
+	// below the first and above the last key
+	lines = append(lines, "seek w 0 2", fmt.Sprintf("cr w 0 %d", first<<16|4),
+		fmt.Sprintf("seek w %d 2", (last+1)<<16), fmt.Sprintf("cr w %d %d", last<<16|701, (last+2)<<16),
+		fmt.Sprintf("sr w %d %d", (last+1)<<16, (last+3)<<16))
+	for i, k := range keys {
+		lo := k << 16
+		// inside one container: only the first value(s) are in range
+		lines = append(lines, fmt.Sprintf("cr w %d %d", lo, lo|100))
+		lines = append(lines, fmt.Sprintf("seek w %d 2", lo|uint64(r.Pick(0, 3, 4))))
+		lines = append(lines, fmt.Sprintf("sr w %d %d", lo, lo|701))
+		// a range starting exactly at this key and ending in a later container
+		lines = append(lines, fmt.Sprintf("cr w %d %d", lo, (k+uint64(r.Range(1, 3))*stride)<<16|4))
+		switch i % 4 {
+		case 0:
+			lines = append(lines, fmt.Sprintf("has w %d", lo|700))
+		case 1:
+			lines = append(lines, fmt.Sprintf("offr o w %d %d %d", uint64(r.Pick(0, 5))<<16, lo, (k+2*stride)<<16))
+		case 2: // a range ending exactly at this key
+			s := first << 16
+			if i > 3 {
+				s = keys[i-3]<<16 | 4
+			}
+			lines = append(lines, fmt.Sprintf("cr w %d %d", s, lo))
+		case 3:
+			lines = append(lines, fmt.Sprintf("cr w %d %d", lo|4, lo|65535))
+		}
+	}
+	return vh.Case{Lines: lines, Nontrivial: true}
+}
+
 func (p *prop) Gen(r *vh.Rng, tier string, n int) []vh.Case {
 	var cases []vh.Case
+	// the wide B-tree family: a fixed number of cases in every stream (they are long)
+	nWide := 3
+	if tier == "thorough" {
+		nWide = 4 + n/2500
+	}
+	off := r.Intn(4) // consecutive variants: always one with and one without removals
+	for k := 0; k < nWide; k++ {
+		cases = append(cases, genWideCase(r.Fork(), k+off))
+	}
 	for k := 0; k < n; k++ {
 		cr := r.Fork()
 		if cr.Chance(1, 5) {
@@ -833,6 +986,24 @@ func (st *state) execLine(l string) string {
 			}
 		}
 		st.regs[ws[1]] = b
+		return fmt.Sprintf("c=%d", b.Count())
+	case (ws[0] == "addv" || ws[0] == "rm") && len(ws) == 3:
+		b := get(ws[1])
+		ivs, ok := parseItems(ws[2])
+		if b == nil || !ok {
+			return "bad-op"
+		}
+		for _, v := range expand(ivs) {
+			var err error
+			if ws[0] == "addv" {
+				_, err = b.Add(v)
+			} else {
+				_, err = b.Remove(v)
+			}
+			if err != nil {
+				return "err:" + ws[0]
+			}
+		}
 		return fmt.Sprintf("c=%d", b.Count())
 	case ws[0] == "opt" && len(ws) == 2:
 		b := get(ws[1])
